@@ -12,6 +12,7 @@ import PFV.Spec
 import PFV.Gen
 import PFV.Rand
 import PFV.Compat
+import PFV.ObjCanon
 namespace PFV
 namespace Driver
 
@@ -228,6 +229,26 @@ def argOk (s : State) (op : Op) (a : Arg) : Bool :=
 
 def dropTake (l : List UInt8) (a b : Nat) : List UInt8 := (l.drop a).take (b - a)
 
+/-- S10: the object-level model (`Obj.lean`) against the live object graph the implementation reported
+before every opcode and at the end (`graph=` digests, `graphfinal=` text) -/
+def objCheck (ver : Nat) (body : List UInt8) (digs : List String) (final : String) : Option String :=
+  match Lex.lex body with
+  | .error e => some s!"obj: the traced bytes do not lex: {reprStr e}"
+  | .ok is =>
+    if digs.length != is.length + 1 then some s!"obj: {digs.length} graph records for {is.length} opcodes"
+    else
+      let dig (s : Obj.OS) : String := hex16 (fnv (Obj.canon s).toUTF8.toList)
+      let rec go (s : Obj.OS) (idx : Nat) (prevOp : String) (is : List Instr) (ds : List String) : Option String :=
+        match ds with
+        | [] => none
+        | d :: ds' =>
+          if dig s != d then
+            some s!"obj: after opcode #{idx} ({prevOp}) the live object graph differs: model={((Obj.canon s).take 600).toString} impl-digest={d}"
+          else match is with
+            | [] => if Obj.canon s != final then some s!"obj: final graph text differs: model={((Obj.canon s).take 600).toString} impl={(final.take 600).toString}" else none
+            | i :: is' => go (Obj.process ver s i.op i.arg) (idx + 1) i.op.name is' ds'
+      go {} 0 "start" is digs
+
 def traceLine (toks : List String) : String :=
   let id := kvD toks "id" "?"
   let c := cfgOf toks
@@ -315,7 +336,13 @@ def traceLine (toks : List String) : String :=
                   if stackDigest sf.stack != a || memoDigest sf.memo != b || (d == "1") != sf.protoEmitted then fail "final state digest differs"
                   else if (if stackStr sf.stack == "" then "-" else stackStr sf.stack) != (if stk == "" then "-" else stk) then fail s!"final stack: model={stackStr sf.stack} impl={stk}"
                   else if memoFull sf.memo != mem then fail "final memo differs"
-                  else s!"trace id={id} ok steps={steps.length} body={bodyEnd} tail={tail.length} memo={sf.memo.length} mutated={kvNat toks "mutated"}"
+                  else
+                    let objRes : Option String := match kv toks "graph" with
+                      | some gs => objCheck c.version (out.drop hdr) (if gs == "-" then [] else gs.splitOn ",") (kvD toks "graphfinal" "-")
+                      | none => none
+                    match objRes with
+                    | some w => fail w
+                    | none => s!"trace id={id} ok steps={steps.length} body={bodyEnd} tail={tail.length} memo={sf.memo.length} mutated={kvNat toks "mutated"} obj={if (kv toks "graph").isSome then "ok" else "-"}"
                 | _ => fail "bad final record"
     | _, _ => fail "missing target/bodyend (generation aborted?)"
 
